@@ -1098,11 +1098,25 @@ func main() {
 	c.Assume("a sized-kind result delivered as the lossless decimal text of the value is accepted (runtime/README_reflect*.md documents 'other types -> string')")
 	c.Assume("arguments of another script type than the parameter kind (null, array, int->string, ...) are only held to 'value or catchable error, never a panic'")
 	c.Assume("arguments are passed through script variables preset from Go, not through source literals (literal lexing/parsing belongs to C01/C03)")
-	c.Assume("float64 -> float32 of a value that is not exactly representable may round (IEEE) or be refused")
+	xok, xrej := 0, 0
+	for k, v := range outcomes {
+		if strings.HasPrefix(k, "unsupported-kind:ok") {
+			xok += v
+		}
+		if strings.HasPrefix(k, "unsupported-kind:throw") {
+			xrej += v
+		}
+	}
+	if xok == 0 || xrej == 0 {
+		c.HarnessError("vacuous: calls with unsupported kinds never %s (ok=%d, refused=%d)", map[bool]string{true: "succeeded", false: "were refused"}[xok == 0], xok, xrej)
+	}
+	c.Assume("a parameter or result kind outside the supported set (pointer, interface, slice, array, map, struct, func, chan, complex, uintptr, several results, variadic) may be refused with a catchable error or delivered in any form; only no-crash, single entry and the identity of the supported parameters next to it are held")
+	c.Assume("a float argument for an integer parameter may be refused or truncated; if the call is accepted although the (integral) number lies outside the kind's range, that is an unconvertible value accepted (NaN / Inf are left open)")
+	c.Assume("a finite float64 whose float32 conversion overflows to an infinity is not representable in float32 (error demanded); one that merely rounds may round or be refused")
 	if len(outcomes) < 4 || calls < 1000 {
 		c.HarnessError("vacuous: %d outcome classes over %d calls", len(outcomes), calls)
 	}
-	rule := fmt.Sprintf("every func signature of arity 0..2 over %d kinds and arity 3 over the first %d kinds x %d result kinds (incl. void), registered with RegisterFunction via reflect.MakeFunc; %d fixture methods via RegisterReflectClass; Convert/ConvertFromIndex[T] for %d kinds; each x (all-neutral + one boundary per position + all boundaries at once)", all, n3, all+1, len(kinds)*(len(kinds)+1)+len(kinds)+1+len(multiSigs), nBasic)
+	rule := fmt.Sprintf("every func signature of arity 0..2 over %d kinds and arity 3 over the first %d kinds x %d result kinds (incl. void), registered with RegisterFunction via reflect.MakeFunc; %d fixture methods via RegisterReflectClass; Convert/ConvertFromIndex[T] for %d kinds; %d signatures with one of %d unsupported kinds as parameter or result on both paths; each x (all-neutral + one boundary per position + all boundaries at once)", all, n3, all+1, len(kinds)*(len(kinds)+1)+len(kinds)+1+len(multiSigs), nBasic, len(xSignatures()), len(xkinds))
 	c.Finish(sigs, calls, calls, rule)
 }
 
